@@ -734,14 +734,24 @@ func (f *frame) loopEnv(li *loopInfo, phiVals map[*ssa.Phi]Val, heap *heapState)
 				}
 				continue
 			}
-			if !li.blocks[blk] && blk.Dominates(li.header) {
+		}
+		_ = best
+		// 3. the closest definition/use outside the loop that dominates the header
+		if v, ok := f.lookupLocalFiltered(name, li.header, func(b *ssa.BasicBlock) bool { return li.blocks[b] }); ok {
+			return f.sval(f.get(v), v.Type()), true
+		}
+		// 4. a value of that name whose definition dominates the header (e.g. a type-switch binding
+		// that is only mentioned inside the loop)
+		var last ssa.Value
+		for _, v := range cands {
+			if in, ok := v.(ssa.Instruction); ok && !li.blocks[in.Block()] && in.Block().Dominates(li.header) {
 				if _, have := f.vals[v]; have {
-					best = v
+					last = v
 				}
 			}
 		}
-		if best != nil {
-			return f.sval(f.get(best), best.Type()), true
+		if last != nil {
+			return f.sval(f.get(last), last.Type()), true
 		}
 		return SVal{}, false
 	}
